@@ -59,6 +59,16 @@ def run(ctx):
         verd["pop:" + c["verdict"]] += 1
         if c["verdict"] == "ok":
             cases.append(("pop%d" % i, "population", src, c))
+    # directed shapes the generators do not produce: an optional as the last statement of a loop body whose first symbol also
+    # begins the next iteration (the loop check looks at accept-to-accept transitions only)
+    from props.c01 import _prog, LIT
+    for wname, wp in (("loop-end-optional-vs-next-iteration", _prog([("loop", None, [LIT(b"a"), ("optional", [LIT(b"ab")])])])),
+                      ("loop-end-optional-vs-next-iteration-2", _prog([("loop", None, [LIT(b"1"), ("match", ("re", ("seq", [("star", ("set", [(48, 57)], False)), ("c", 120)]))), ("optional", [LIT(b"1y")])])]))):
+        wsrc = gen.pr_prog(wp)
+        wc = c01.convert(wp, wsrc, [], "-O0")
+        verd["directed:" + wc["verdict"]] += 1
+        if wc["verdict"] == "ok":
+            cases.append((wname, "loopendopt:directed", wsrc, wc))
     results = refsem.run_refk([refsem.task_amb(c["pr"]) for _, _, _, c in cases], timeout=600)
     ok = amb = 0
     kinds = collections.Counter()
